@@ -51,7 +51,10 @@ RULE_ADDED = (
               "'s identifier and datum. "
               ' '
               'Round 17: heartbeats during which the device is not found for three or four atte'
-              'mpts in a row, then queries. ')
+              'mpts in a row, then queries. '
+              ' '
+              'Round 18: a key asked for again after a heartbeat whose re-connection found a de'
+              'vice with other keys. ')
 RULE = RULE + " " + RULE_ADDED.strip()
 ASSUMPTIONS = [
     "simulated device + fake HID/TCP transports are trusted; firmware selectors are parsed "
@@ -394,9 +397,27 @@ def run_state(acc, cseed, platform, fw, nets, cmpf, Stack, SimDevice):
             s.bus.enumerate_fail = rng.choice([1, 1, 3, 4])
             acc.count("uihb_with_a_failed_reconnection")
             case = dict(case, failed_reconnection=reconn)
+        # (a key asked for before the heartbeat ... see below)
+        p0_ = rng.choice(ALL_PATHS)
+        s.request({"command": "getPubKey", "version": 5, "keyId": p0_})
         reply, exc, _ = s.request({"command": "uiHeartbeat", "version": 5, "udValue": ud.hex()})
         acc.evaluations += 1
         acc.count("uihb_transitions")
+        if exc is None and isinstance(reply, dict) and reply.get("errorcode") == 0 and \
+                dev.mode == MODE_SIGNER:
+            # ... and again after it: the device found after the re-connections of a
+            # heartbeat need not be the one that was there before (two devices on the host);
+            # the key reported is the one the device now there holds
+            newk = art(rng, 65)
+            dev.pubkeys[path_to_binary(p0_)] = newk
+            r0, e0, _ = s.request({"command": "getPubKey", "version": 5, "keyId": p0_})
+            acc.evaluations += 1
+            acc.count("keys_asked_again_after_a_heartbeat_found_another_device")
+            if e0 is None and isinstance(r0, dict) and r0.get("errorcode") == 0 and \
+                    r0.get("pubKey") != newk.hex():
+                acc.violation("getPubKey-after-heartbeat-reports-the-key-of-the-device-before",
+                              {"reply": r0, "path": p0_}, case)
+                return
         acc.distinct.add("uihb|%s|%s|%s" % (trans, exitb, reconn))
         if exc is not None or not reply or type(reply.get("errorcode")) is not int:
             acc.violation("uiHeartbeat-no-verdict", {"exc": repr(exc), "reply": reply}, case)
